@@ -784,7 +784,8 @@ func makeUpdateStrategyMap(resources *dynamicdiscovery.ResourceMap, dc *v1alpha1
 func parentQueueKey(obj interface{}) (string, error) {
 	switch o := obj.(type) {
 	case cache.DeletedFinalStateUnknown:
-		return o.Key, nil
+		// The tombstone key is namespace/name, which is not a parent queue key.
+		return parentQueueKey(o.Obj)
 	case cache.ExplicitKey:
 		return string(o), nil
 	case *unstructured.Unstructured:
